@@ -1,7 +1,7 @@
 #!/bin/bash
-# usage: tools_sweep.sh <tier> <seed>...   runs every registered check at the given seeds in the LIVE /verif; prints one line per (check, seed)
+# usage: tools_sweep.sh <tier> <seed>...   runs every registered check at the given seeds in the copy of /verif the script lives in; prints one line per (check, seed)
 tier=$1; shift
-cd /verif
+cd "$(dirname "$(readlink -f "$0")")"
 for sd in "$@"; do
   for c in $(python3 -c "import json; print(' '.join(x['property_id'] for x in json.load(open('MANIFEST.json'))['checks']))"); do
     out=$(VERIF_SEED=$sd ./vf check $c --tier $tier 2>&1)
